@@ -49,9 +49,12 @@ pub fn pool() -> Vec<String> {
 }
 
 fn method(comp: u8) -> CompressionMethod {
-    match comp { 1 => CompressionMethod::Zlib, 2 => CompressionMethod::BZip2, 3 => CompressionMethod::Lzma, 4 => CompressionMethod::Sparse, _ => CompressionMethod::None }
+    match comp { 1 => CompressionMethod::Zlib, 2 => CompressionMethod::BZip2, 3 => CompressionMethod::Lzma, 4 => CompressionMethod::Sparse,
+        // selectors whose data preparation fails (an add that reports failure after the early checks passed):
+        // an unsupported combination, and ADPCM on an odd-length payload
+        5 => CompressionMethod::Multiple(0x02 | 0x08), 6 => CompressionMethod::AdpcmMono, _ => CompressionMethod::None }
 }
-fn flag(comp: u8) -> u8 { match comp { 1 => 0x02, 2 => 0x10, 3 => 0x12, 4 => 0x20, _ => 0 } }
+fn flag(comp: u8) -> u8 { match comp { 1 => 0x02, 2 => 0x10, 3 => 0x12, 4 => 0x20, 5 => 0x0A, 6 => 0x40, _ => 0 } }
 
 fn gen_data(rng: &mut Rng) -> Vec<u8> {
     let n = match rng.below(10) { 0 => 0, 1 => rng.range(1, 8) as usize, 2 => rng.range(4090, 4100) as usize, 3 => rng.range(9000, 12000) as usize, _ => rng.range(9, 900) as usize };
@@ -80,8 +83,13 @@ pub fn gen_case(rng: &mut Rng, npool: usize, long: bool, k: u64) -> Case {
     let mut ops = vec![];
     for _ in 0..n_ops {
         let op = match rng.below(20) {
-            0..=8 => Op::Add { name: if long && rng.chance(1, 2) { rng.below(npool as u64) as usize } else { focus(rng) }, data: gen_data(rng),
-                               comp: *rng.pick(&[0u8, 0, 1, 1, 1, 2, 3, 4]), enc: *rng.pick(&[0u8, 0, 0, 0, 1, 2]), replace: rng.chance(4, 5) },
+            0..=8 => {
+                let comp = *rng.pick(&[0u8, 0, 1, 1, 1, 2, 3, 4, 5, 6]);
+                let mut data = gen_data(rng);
+                if comp == 6 && data.len() % 2 == 0 { data.push(7); }   // ADPCM is lossy on even lengths; only its failure is of interest here
+                Op::Add { name: if long && rng.chance(1, 2) { rng.below(npool as u64) as usize } else { focus(rng) }, data,
+                          comp, enc: *rng.pick(&[0u8, 0, 0, 0, 1, 2]), replace: rng.chance(4, 5) }
+            }
             9..=12 => Op::Remove(focus(rng)),
             13..=15 => Op::Rename(focus(rng), focus(rng)),
             16 => Op::Compact,
